@@ -12,7 +12,7 @@ for d in sorted(glob.glob(os.path.join(ROOT, "seeded", "*"))):
     if not m.get("summary") and summ:
         m["summary"] = summ
         json.dump(m, open(os.path.join(d, "meta.json"), "w"), indent=1)
-    rows.append("| %s | %s | %s | %s |" % (m["id"], ", ".join(files), summ.replace("|", "\\|"), ("caught by `./check %s quick`" % m["property"] + (" (rebased patch)" if m.get("patch_used") == "patch.rebased.diff" else "")) if m.get("check_detects") else ("no longer breaks the property since fix %s (its demonstration passes); caught before" % m["neutralised_by"] if m.get("neutralised_by") else "**missed**")))
+    rows.append("| %s | %s | %s | %s |" % (m["id"], ", ".join(files), summ.replace("|", "\\|"), ("caught by `./check %s quick`" % m.get("check_property", m["property"]) + (" (rebased patch)" if m.get("patch_used") == "patch.rebased.diff" else "")) if m.get("check_detects") else ("no longer breaks the property since fix %s (its demonstration passes); caught before" % m["neutralised_by"] if m.get("neutralised_by") else "**missed**")))
 table = "| id | files changed | what it breaks / what it needs to manifest | result |\n|---|---|---|---|\n" + "\n".join(rows)
 p = os.path.join(ROOT, "DESIGN.md")
 s = open(p).read()
